@@ -156,9 +156,39 @@ def tool(repo=None):
     return _tool
 
 
-def anchor_hits(reach, anchors):
-    """reach: {relfile: {line: hits}} ; anchors: list of 'pulsarbat/x.py:a-b[, c-d]' strings -> summary dict."""
+PINNED = "d827ade"      # the commit the properties' anchors (file:line ranges) refer to
+
+
+def line_map(repo, relpath):
+    """Map line numbers of the pinned source to the current working tree (difflib on the two texts); identity if unavailable."""
+    import difflib
+    import subprocess
+    try:
+        old = subprocess.run(["git", "-C", repo, "show", f"{PINNED}:{relpath}"], capture_output=True, text=True, timeout=20)
+        if old.returncode != 0:
+            return None
+        a = old.stdout.splitlines()
+        with open(os.path.join(repo, relpath)) as fh:
+            b = fh.read().splitlines()
+    except Exception:
+        return None
+    m = {}
+    for tag, i1, i2, j1, j2 in difflib.SequenceMatcher(None, a, b, autojunk=False).get_opcodes():
+        if tag == "equal":
+            for k in range(i2 - i1):
+                m[i1 + k + 1] = j1 + k + 1
+        elif tag == "replace":
+            for k in range(i2 - i1):
+                m[i1 + k + 1] = min(j1 + k, j2 - 1) + 1 if j2 > j1 else None
+    return m
+
+
+def anchor_hits(reach, anchors, repo=None):
+    """reach: {relfile: {line: hits}} ; anchors: list of 'pulsarbat/x.py:a-b[, c-d]' strings -> summary dict.
+
+    Anchor line numbers refer to the pinned source; they are mapped onto the current tree first."""
     out = {}
+    maps = {}
     for a in anchors:
         if ":" not in a:
             continue
@@ -173,8 +203,12 @@ def anchor_hits(reach, anchors):
                 lo, hi = int(lo), int(hi or lo)
             except ValueError:
                 continue
-            for ln in range(lo, hi + 1):
-                if ln in lines:
+            if repo is not None and f not in maps:
+                maps[f] = line_map(repo, f)
+            mp = maps.get(f)
+            for ln0 in range(lo, hi + 1):
+                ln = mp.get(ln0) if mp else ln0
+                if ln is not None and ln in lines:
                     hit_lines += 1
                     hits += lines[ln]
             tot_lines += hi - lo + 1
